@@ -509,7 +509,7 @@ def run_text(ck):
     if not ck.go_build("traceql"):
         ck.obligation("harness traceql builds against the repository", False, ck.build_out[-1500:])
         return
-    n = ck.n(700, 20000)
+    n = ck.n(700, 12000)
     cases = []
     corpus = os.path.join(ROOT, "corpus", "C11", "queries.jsonl")
     if os.path.exists(corpus):
